@@ -51,6 +51,12 @@ package model
 //@   ensures len(substr) == 1 && result >= 0 ==> s[result] == substr[0]
 //@   ensures len(substr) == 1 ==> forall j int :: result < j && j < len(s) ==> s[j] != substr[0]
 
+// sanyof(chars, c): byte c occurs in chars. Byte-wise reading of IndexAny/LastIndexAny, stated
+// only for ASCII `chars` (for other sets the functions work on runes).
+//@ spec func sanyof(chars string, c int) bool = exists k int :: 0 <= k && k < len(chars) && chars[k] == c
+//@ spec func asciistr(chars string) bool = forall k int :: 0 <= k && k < len(chars) ==> chars[k] < 128
+// (strings.IndexAny is declared in the C08 contract file of server/internal/cache/blob, its only user.)
+
 //@ extern func strings.Cut
 //@   pure
 //@   ensures result.2 <==> scontains(s, sep)
@@ -80,6 +86,13 @@ package model
 //@   ensures len(elem) == 2 ==> result == fpjoin2(elem[0], elem[1])
 //@   ensures len(elem) == 3 ==> result == fpjoin3(elem[0], elem[1], elem[2])
 //@   ensures len(elem) == 4 ==> result == fpjoin4(elem[0], elem[1], elem[2], elem[3])
+
+// ---- digest shape (used by the server block and offered to C08 for blob.ParseDigest) ----
+//@ spec func hexdig(c int) bool = (48 <= c && c <= 57) || (97 <= c && c <= 102) || (65 <= c && c <= 70)
+// "sha256" + (':' | '-') + 64 hex digits, nothing else: what ^sha256[:-][0-9a-fA-F]{64}$ accepts
+//@ spec func digestshape(s string) bool = len(s) == 71 && s[0] == 115 && s[1] == 104 && s[2] == 97 && s[3] == 50 && s[4] == 53 && s[5] == 54 && (s[6] == 58 || s[6] == 45) && forall j int :: 7 <= j && j < 71 ==> hexdig(s[j])
+// the file name below blobs/: "sha256-" + 64 hex digits (no separator byte, not dot-first)
+//@ spec func blobfile(s string) bool = len(s) == 71 && s[0] == 115 && s[1] == 104 && s[2] == 97 && s[3] == 50 && s[4] == 53 && s[5] == 54 && s[6] == 45 && forall j int :: 7 <= j && j < 71 ==> hexdig(s[j])
 
 // ---- the validator over a whole name ----
 
